@@ -82,6 +82,19 @@ class BlockTyper:
             return self.locals.get(e.id)
         if isinstance(e, ast.Subscript) and isinstance(e.value, ast.Subscript) and dotted(e.value.value) in self.roots:
             return (norm_stmt(e.value.slice), norm_stmt(e.slice))
+        # ROOT[o].pop(k) / ROOT[o].get(k): the block (o, k)
+        if isinstance(e, ast.Call) and last_attr(e) in ("pop", "get") and e.args and isinstance(e.func, ast.Attribute) and isinstance(e.func.value, ast.Subscript) and dotted(e.func.value.value) in self.roots:
+            return (norm_stmt(e.func.value.slice), norm_stmt(e.args[0]))
+        # a row held in a local: {k: block(o, k) for k in ...} and row[k]
+        if isinstance(e, ast.DictComp) and len(e.generators) == 1:
+            t = self.type_of(e.value, record)
+            if t is not None and norm_stmt(e.key) == t[1]:
+                return ("row", t[0])
+            return None
+        if isinstance(e, ast.Subscript) and isinstance(e.value, ast.Name):
+            row = self.locals.get(e.value.id)
+            if row is not None and row[0] == "row":
+                return (row[1], norm_stmt(e.slice))
         if isinstance(e, ast.BinOp) and isinstance(e.op, ast.MatMult):
             return self._prod(e, e.left, e.right, record)
         if isinstance(e, ast.Call) and last_attr(e) == "__rmatmul__" and e.args:
@@ -144,17 +157,24 @@ def check_reverse_chain_rule(ctx: Ctx) -> None:
             elif len(cl) == 1:
                 lits.append((not cl[0][0], cl[0][1]))
         txt_pos = {norm_stmt(e) for p, e in lits if p}
-        exists = f"{want[1]} in self.jac[{want[0]}]" in txt_pos
-        # the pass-through test: input_name != new_in (the inner key differs from the column key)
-        inner = bt.locals.get("curr_jac", (None, None))[1] if "curr_jac" in bt.locals else None
-        notsame = any(isinstance(e, ast.Compare) and isinstance(e.ops[0], ast.NotEq) and {dotted(e.left), dotted(e.comparators[0])} == {inner, want[1]} for p, e in lits if p)
+        txt_neg = {norm_stmt(e) for p, e in lits if not p}
+        exists_txt = f"{want[1]} in self.jac[{want[0]}]"
         accumulates = isinstance(s, ast.AugAssign) or (isinstance(s.value, ast.BinOp) and isinstance(s.value.op, ast.Add) and any(isinstance(x, ast.Subscript) and norm_stmt(x) == norm_stmt(tgt) for x in ast.walk(s.value)))
         if accumulates:
-            ctx.ob("9.1-accumulate", con, exists and notsame, "a contribution may be added to an existing block only when the block already exists and the inner variable is not the column variable itself (an input that is also an output must be composed, not summed)", node=s, slots={"conditions": sorted(txt_pos)})
+            ctx.ob("9.1-accumulate", con, exists_txt in txt_pos, "a contribution is ADDED to the block exactly when the block already exists (whatever the inner variable: the blocks w.r.t. the variables computed by the discipline have been consumed before)", node=s, slots={"conditions": sorted(txt_pos)})
             if isinstance(s, ast.AugAssign):
                 ctx.ob("9.1-accumulate", con, isinstance(s.op, ast.Add), "contributions through different inner variables must be summed", node=s, stmt=f"sum: {norm_stmt(s, 70)}")
         else:
-            ctx.ob("9.1-accumulate", con, not (exists and notsame), "a plain store on the branch where the block already exists discards the contributions of the other paths", node=s, slots={"conditions": sorted(txt_pos)})
+            ctx.ob("9.1-accumulate", con, exists_txt in txt_neg, "a plain store is only right where the block does not exist yet: elsewhere it discards the contributions of the other paths", node=s, slots={"conditions": sorted(txt_pos), "negated": sorted(txt_neg)})
+    # the blocks w.r.t. the variables the discipline computes are consumed (removed from the row) before composing
+    pops = [c for c in walk_body(f) if isinstance(c, ast.Call) and last_attr(c) == "pop" and isinstance(c.func.value, ast.Subscript) and dotted(c.func.value.value) == "self.jac"]
+    dels = [d for d in stmts_of(f) if isinstance(d, ast.Delete) and any(isinstance(t_, ast.Subscript) and isinstance(t_.value, ast.Subscript) and dotted(t_.value.value) == "self.jac" for t_ in d.targets)]
+    ok = bool(pops or dels)
+    if ok and stores:
+        first_store = min(cfg.node_of(s_) for s_, _ in stores)
+        rm = [cfg.node_of(rules.enclosing_stmt(f, c)) for c in pops] + [cfg.node_of(d) for d in dels]
+        ok = all(cfg.path(first_store, r_) is None or cfg.dominates(r_, first_store) for r_ in rm) and any(cfg.dominates(r_, first_store) for r_ in rm)
+    ctx.ob("9.1-consume", con, ok, "the derivatives of an output with respect to the variables that the discipline COMPUTES must be removed from the row (they are replaced by their chain-rule products) before any contribution is stored: kept, they give wrong derivatives for overwritten variables and for disciplines updating several of their inputs", node=(pops or dels or [f])[0], stmt="blocks w.r.t. the discipline's outputs consumed before composing")
     # the plain store is the else of the accumulation test
     # 9.2 ownership
     whole = [s for s in stmts_of(f) if isinstance(s, ast.Assign) and isinstance(s.targets[0], ast.Subscript) and dotted(s.targets[0].value) == "self.jac"]
@@ -376,13 +396,13 @@ def run(ctx: Ctx) -> None:
 
 # ---------------------------------------------------------------------------
 WITNESSES = [
+    {"name": "overwritten-variable-block-kept", "file": CH, "old": "                consumed_jac = {\n                    input_name: self.jac[output_name].pop(input_name)\n                    for input_name in common_inputs\n                }\n", "new": "                consumed_jac = {\n                    input_name: self.jac[output_name][input_name]\n                    for input_name in common_inputs\n                }\n", "expect": "9.1"},
+    {"name": "contribution-stored-over-existing-block", "file": CH, "old": "                        if new_in in self.jac[output_name]:\n", "new": "                        if new_in in self.jac[output_name] and input_name != new_in:\n", "expect": "9.1"},
     {"name": "product-reversed", "file": CH, "old": "                            loc_dot = curr_jac @ new_jac", "new": "                            loc_dot = new_jac @ curr_jac", "expect": "9.1"},
     {"name": "operator-product-reversed", "file": CH, "old": "loc_dot = new_jac.__rmatmul__(curr_jac)", "new": "loc_dot = curr_jac.__rmatmul__(new_jac)", "expect": "9.1"},
     {"name": "store-at-inner-key", "file": CH, "old": "                            self.jac[output_name][new_in] = loc_dot\n", "new": "                            self.jac[output_name][input_name] = loc_dot\n", "expect": "9.1"},
     {"name": "overwrite-shared-input", "file": CH, "old": "                                self.jac[output_name][new_in] += loc_dot", "new": "                                self.jac[output_name][new_in] = loc_dot", "expect": "9.1"},
-    {"name": "accumulate-pass-through", "file": CH, "old": "if new_in in self.jac[output_name] and input_name != new_in:", "new": "if new_in in self.jac[output_name]:", "expect": "9.1"},
     {"name": "subtract-contribution", "file": CH, "old": "                                self.jac[output_name][new_in] += loc_dot", "new": "                                self.jac[output_name][new_in] -= loc_dot", "expect": "9.1"},
-    {"name": "curr_jac-of-other-output", "file": CH, "old": "                    curr_jac = self.jac[output_name][input_name]", "new": "                    curr_jac = self.jac[input_name][output_name]", "expect": "9.1"},
     {"name": "row-not-copied", "file": CH, "old": "self.jac[output_name] = MDOChain.copy_jacs(discipline.jac[output_name])", "new": "self.jac[output_name] = discipline.jac[output_name]", "expect": "9.2"},
     {"name": "last-jacobian-not-copied", "file": CH, "old": "        self.jac = self.copy_jacs(last_discipline.jac)", "new": "        self.jac = last_discipline.jac", "expect": "9.2"},
     {"name": "copy_jacs-shallow", "file": CH, "old": "                    output_jacobian_copy[input_name] = derivatives.copy()", "new": "                    output_jacobian_copy[input_name] = derivatives", "expect": "9.2"},
